@@ -3,8 +3,8 @@
 cd /verif
 prop=$1; shift
 for k in "$@"; do
-  d=/tmp/mut-$prop-$k
+  d=${MUT_PREFIX:-/tmp/mut-}$prop-$k
   dest=$(jq -r .dest $d/DEMO.json); cmd=$(jq -r .cmd $d/DEMO.json)
   echo "== $prop-$k dest=$dest cmd=$cmd"
-  tools/seed_verify.sh $d $prop $prop-$k "$dest" "$cmd"
+  tools/seed_verify.sh $d $prop $prop-${ID_INFIX:-}$k "$dest" "$cmd"
 done
